@@ -143,6 +143,11 @@ def run_rules(ctx, F, A, X):
     check_option(ctx, F, A, X)
     # ---- list loop
     check_list(ctx, F, A, X)
+    # ---- streaming parser: a list response announcing n values yields exactly n entries, one end event, then the trailer
+    from . import c09
+    ctx.rule("R-C09-COUNT", "streaming countdown (shared with C09): n announced values -> n ListEntry events, one GetListResponseEnd, then the trailer; "
+                            "n = 0 included -- a well-formed list of any length is accepted by the streaming parser")
+    c09.check_countdown(ctx, F, A, X)
     # ---- values: "every integer value and sign, byte string, ... is preserved" -- the structural value rules of C12
     from . import c12
     ctx.rule("R-C12-*", "value exactness of TLF lengths, integers (right-aligned copy, sign fill, from_be_bytes), booleans and octet strings "
